@@ -137,7 +137,6 @@ package deflate
 //@ pure histPreOK(h *histogram) bool = (forall x :: 0 <= x && x < 286 ==> preEntryOK(h.literalCodes[x])) && (forall d :: 0 <= d && d < 30 ==> preEntryOK(h.distanceCodes[d]))
 
 //@ func (*dynCompressor).genHuffCodes
-//@   trusted "not yet verified: histogram reduction and length-limited Huffman code generation (huffman package)"
 //@   requires c.hist != nil && c.litGen != nil && c.distGen != nil
 //@   modifies *c.hist, **c.litGen, **c.distGen
 //@   ensures histPreOK(c.hist)
@@ -204,7 +203,8 @@ package deflate
 // huffmanOnly (level -2)
 // ---------------------------------------------------------------------------
 
-//@ pure huffShape(h *huffmanOnly) bool = len(h.buffer) == 65536 && h.max == 65536 && len(h.buf.output) == 8192 && h.hdr != nil && h.litGen != nil
+//@ pure huffHist(h *huffmanOnly) bool = (forall x :: 257 <= x && x < 513 ==> h.hist.literalCodes[x] == 0) && (forall d :: 0 <= d && d < 31 ==> h.hist.distanceCodes[d] == 0)
+//@ pure huffShape(h *huffmanOnly) bool = huffHist(h) && len(h.buffer) == 65536 && h.max == 65536 && len(h.buf.output) == 8192 && h.hdr != nil && h.litGen != nil
 //@ pure huffOK(h *huffmanOnly) bool = huffShape(h) && h.w != nil && !dstFailed(h.w) && 0 <= h.offset && h.offset <= h.max && bufOK(&h.buf) && h.buf.idx == 0
 //@ pure huffFresh(h *huffmanOnly) bool = huffOK(h) && h.offset == 0 && bufZero(&h.buf)
 
@@ -226,14 +226,31 @@ package deflate
 //@   ensures[C09 trigger-iff-full] trigger == (h.offset == h.max)
 //@   ensures[C09 progress] n == len(data) || trigger
 
+//@ funcvar optimizedEncodeBytes
+//@   params hist, data, buf -> num
+//@   trusted "encodeBytes, or (acceleration level 4) the assembly encoder followed by encodeBytes: assumed to satisfy encodeBytes' contract"
+//@   requires hist != nil && buf != nil && bufOK(buf) && buf.idx + 8 <= len(buf.output) && len(buf.output) <= 1073741824 && len(data) > 0 && len(data) <= 1073741824 && histLitOK(hist)
+//@   modifies buf.idx, buf.bits, buf.bitLen, buf.output[*]
+//@   ensures 0 <= num && num <= len(data) && bufOK(buf) && buf.idx <= len(buf.output) && (num == len(data) ==> buf.idx + 8 <= len(buf.output))
+
+//@ func (*histogram).reduceCounts
+//@   modifies h.literalCodes
+//@   ensures forall x :: 0 <= x && x < 265 ==> h.literalCodes[x] == old(h.literalCodes[x])
+//@   ensures forall x :: 286 <= x && x < 513 ==> h.literalCodes[x] == old(h.literalCodes[x])
+//@   ensures (forall y :: 265 <= y && y < 513 ==> old(h.literalCodes[y]) == 0) ==> (forall x :: 265 <= x && x < 286 ==> h.literalCodes[x] == 0)
+//@   loop 1 invariant 1 <= bits && bits <= 6 && curr == 265 + 4*((1<<uint64(bits)) - 2) && idx == 265 + 4*(bits-1) && (forall x :: 0 <= x && x < 265 ==> h.literalCodes[x] == old(h.literalCodes[x])) && (forall x :: idx <= x && x < 513 ==> h.literalCodes[x] == old(h.literalCodes[x])) && ((forall y :: 265 <= y && y < 513 ==> old(h.literalCodes[y]) == 0) ==> (forall x :: 265 <= x && x < idx ==> h.literalCodes[x] == 0))
+//@   loop 2 invariant 1 <= bits && bits <= 5 && 0 <= i && i <= 4 && curr == 265 + 4*((1<<uint64(bits)) - 2) + i*(1<<uint64(bits)) && idx == 265 + 4*(bits-1) + i && (forall x :: 0 <= x && x < 265 ==> h.literalCodes[x] == old(h.literalCodes[x])) && (forall x :: idx <= x && x < 513 ==> h.literalCodes[x] == old(h.literalCodes[x])) && ((forall y :: 265 <= y && y < 513 ==> old(h.literalCodes[y]) == 0) ==> (forall x :: 265 <= x && x < idx ==> h.literalCodes[x] == 0))
+//@   loop 3 invariant 1 <= bits && bits <= 5 && 0 <= i && i < 4 && 0 <= j && j <= 1<<uint64(bits) && curr == 265 + 4*((1<<uint64(bits)) - 2) + i*(1<<uint64(bits)) + j && idx == 265 + 4*(bits-1) + i && (forall x :: 0 <= x && x < 265 ==> h.literalCodes[x] == old(h.literalCodes[x])) && (forall x :: idx <= x && x < 513 ==> h.literalCodes[x] == old(h.literalCodes[x])) && ((forall y :: 265 <= y && y < 513 ==> old(h.literalCodes[y]) == 0) ==> (forall x :: 265 <= x && x < idx ==> h.literalCodes[x] == 0)) && ((forall y :: 265 <= y && y < 513 ==> old(h.literalCodes[y]) == 0) ==> val == 0)
+
 //@ func (*huffmanOnly).encodeBlock
-//@   trusted "not yet verified: byte histogram, code generation, header and byte encoding below this call"
 //@   requires huffOK(h)
 //@   modifies h.hist, h.buf, h.offset, h.buffer[*], **h.hdr, **h.litGen, extWrites, lastWriteErr, **h.w, h.buf.output[*]
-//@   ensures huffShape(h) && h.w == old(h.w)
-//@   ensures result == nil ==> huffOK(h) && h.offset == 0
-//@   ensures result == nil && final ==> h.buf.bitLen == 0
-//@   ensures result != nil ==> result == lastWriteErr && dstFailed(h.w)
+//@   ensures[C14 C16] huffShape(h) && h.w == old(h.w)
+//@   ensures[C10 C14 C16 block-done] result == nil && !(final && old(h.offset) == 0) ==> huffOK(h) && h.offset == 0
+//@   ensures[C01 C10 final-aligned] result == nil && final ==> h.buf.bitLen == 0 && !dstFailed(h.w)
+//@   ensures[C10 consumed] result == nil ==> h.offset == 0
+//@   ensures[C14 dst-err] result != nil ==> result == lastWriteErr && dstFailed(h.w)
+//@   loop 1 invariant huffShape(h) && same(h.w) && h.w != nil && !dstFailed(h.w) && 0 <= num && num <= h.offset && h.offset <= 65536 && same(h.offset) && h.offset > 0 && histLitOK(&h.hist) && huffHist(h) && bufOK(&h.buf) && h.buf.idx + 1024 <= len(h.buf.output) && (num > 0 ==> h.buf.idx == 0) && (num == h.offset && final ==> h.buf.bitLen == 0)
 
 //@ func (*huffmanOnly).Compress
 //@   requires huffOK(h)
@@ -545,4 +562,6 @@ package deflate
 //@ func bytesFreq
 //@   requires hist != nil
 //@   modifies hist.literalCodes
-//@   loop 2 invariant 0 <= j && j <= len(input)
+//@   ensures[C01 freq-frame] forall x :: 256 <= x && x < 513 ==> hist.literalCodes[x] == old(hist.literalCodes[x])
+//@   loop 1 invariant forall x :: 256 <= x && x < 513 ==> hist.literalCodes[x] == old(hist.literalCodes[x])
+//@   loop 2 invariant 0 <= j && j <= len(input) && (forall x :: 256 <= x && x < 513 ==> hist.literalCodes[x] == old(hist.literalCodes[x]))
